@@ -21,7 +21,7 @@ What is stated but not proved universally (`C19_optimize_preserves_statement`): 
 `optimize` unfold to the same tree (same invariant as for cloning, plus the offset arithmetic of the slide).  The witnesses below show why the hypotheses of the statement are needed:
 the unchanged Rust violates C19 when they fail, through public methods only.
 -/
-import Garnish.Lemmas.Optimize
+import Garnish.Lemmas.OptimizeClone
 import Garnish.Spec.GraphIso
 namespace Garnish.Props.C19
 open Garnish Garnish.BasicOpt
